@@ -27,7 +27,7 @@ RULE = ("history = a configuration endpoint and up to 8 node servers behind one 
         "client connects to while routing the corpus is advertised (with >= 50 keys and <= 6 nodes: all advertised "
         "nodes are used); no command reaches a node that is no longer advertised; every key-addressed call succeeds; "
         "sockets to replaced nodes are closed; the ERROR endpoint makes construction fail with a MemcacheError "
-        "(MemcacheUnknownCommandError), without waiting for an end token that will never come. Node lists include nodes that share an address and differ only in the port (one host name and IP with three ports; a node sharing only its IP, another only its host name, with a second node). Clients side by side: two ElastiCache clients for two clusters (each behind its own endpoint and fake network; overlapping or disjoint node sets, any use_vpc mix, pooled or not) alive in one process and used alternately / one after the other with the same keys, optionally with a re-discovery of one of them half-way: every set/get of a client reaches exactly one node its own endpoint advertises and nothing of the other cluster. Non-trivial: a "
+        "(MemcacheUnknownCommandError), without waiting for an end token that will never come. Node lists include nodes that share an address and differ only in the port (one host name and IP with three ports; a node sharing only its IP, another only its host name, with a second node). Large clusters: 1 ... 200 nodes (thorough 1000), sizes straddling the points where the reply crosses one and two receive buffers, delivered whole, in buffer-sized and in small pieces; scale-down to a third and back. Clients side by side: two ElastiCache clients for two clusters (each behind its own endpoint and fake network; overlapping or disjoint node sets, any use_vpc mix, pooled or not) alive in one process and used alternately / one after the other with the same keys, optionally with a re-discovery of one of them half-way: every set/get of a client reaches exactly one node its own endpoint advertises and nothing of the other cluster. Non-trivial: a "
         "scale-down or replacement followed by traffic, or a reply cut inside the node line or the end token.")
 MANIFEST = {
     "category": "exploration",
@@ -231,6 +231,78 @@ def fixed_history_cases(tier, seed):
                 yield {"steps": h, "fail_before": fb, "retry_attempts": ra, "use_vpc": vpc, "pooling": bool(ra % 2), "nkeys": 90}
 
 
+# ---- large clusters --------------------------------------------------------------------------------------------------
+
+def _big_nodes(n):
+    return [("cache-%03d.bigcluster.use1.cache.amazonaws.com" % i, "10.%d.%d.%d" % (1 + i // 60000, (i // 250) % 250, 1 + i % 250), 11211 + (i % 2)) for i in range(n)]
+
+
+def big_cluster_cases(tier, seed):
+    """any number of nodes: node lists whose reply is longer than one receive buffer (4096 bytes), sizes straddling the
+    buffer boundary, delivered whole, in buffer-sized pieces and in small pieces"""
+    # reply length is about 67 bytes per node: 4096 is crossed near 60 nodes, 8192 near 121
+    sizes = [1, 20, 58, 59, 60, 61, 62, 63, 119, 120, 121, 122, 123, 124, 200] + ([500, 1000] if tier == "thorough" else [])
+    for n in sizes:
+        for vpc in (True, False):
+            for sched in (None, [4096], [4095, 2, 4096], [1000], [7]):
+                if sched == [7] and n > 70:
+                    continue
+                yield {"n": n, "use_vpc": vpc, "schedule": sched, "shrink_to": max(1, n // 3)}
+
+
+def check_big_cluster(case):
+    n, use_vpc = case["n"], case["use_vpc"]
+    nodes = _big_nodes(n)
+    w = World(case.get("schedule"))
+    servers = {}
+    for host, ip, port in nodes:
+        s_ = McServer(w.clock, name=host)
+        w.net.add_server((host, port), s_)
+        w.net.add_server((ip, port), s_)
+        servers[(ip if use_vpc else host, port)] = s_
+    desc = "%d nodes, use_vpc=%r, reply delivered in pieces %r" % (n, use_vpc, case.get("schedule"))
+
+    def advertise(version, sub):
+        w.cfg.cluster_config = b"%d\n" % version + " ".join("%s|%s|%d" % x for x in sub).encode() + b"\n"
+
+    with virtual_time(w.clock):
+        for step, sub in enumerate((nodes, nodes[:case["shrink_to"]], nodes)):
+            advertise(step + 1, sub)
+            w.net.begin_call(step)
+            try:
+                if step == 0:
+                    hc = AWSElastiCacheHashClient(CFG, socket_module=w.net, use_vpc=use_vpc, default_noreply=False, timeout=1)
+                else:
+                    hc.reconfigure_nodes()
+            except Exception as e:  # noqa: BLE001
+                raise Violation(["big-cluster", "raises", type(e).__name__], "step %d raised %r: %s" % (step, e, desc))
+            finally:
+                w.net.end_call(step)
+            if any(f[0] == "blocks-forever" for f in w.net.flags):
+                raise Violation(["big-cluster", "blocks"], "discovery waited for bytes that would never come at step %d: %s" % (step, desc))
+            want = {"%s:%s" % ((ip if use_vpc else host), port) for host, ip, port in sub}
+            rot = set(hc.hasher.nodes)
+            if rot != want or set(hc.clients) != want:
+                raise Violation(["big-cluster", "rotation-differs"], "after step %d the rotation has %d nodes (%d missing, %d extra: %r), %d advertised: %s"
+                                % (step, len(rot), len(want - rot), len(rot - want), sorted(rot - want)[:3], len(want), desc))
+            marks = {a: len(s_.log) for a, s_ in servers.items()}
+            for i in range(min(3 * len(sub), 90)):
+                k = "key-%d-%d" % (step, i)
+                try:
+                    ok, got = hc.set(k, b"v"), hc.get(k)
+                except Exception as e:  # noqa: BLE001
+                    raise Violation(["big-cluster", "traffic-raises", type(e).__name__], "set/get of %r raised %r after step %d: %s" % (k, e, step, desc))
+                if ok is not True or got != b"v":
+                    raise Violation(["big-cluster", "traffic"], "set/get of %r gave %r / %r after step %d: %s" % (k, ok, got, step, desc))
+            live = {"%s:%s" % a for a, s_ in servers.items() if len(s_.log) != marks[a]}
+            if not live <= want:
+                raise Violation(["big-cluster", "contacted-unadvertised"], "after step %d commands reached %r, which are not advertised: %s" % (step, sorted(live - want)[:3], desc))
+        hc.close()
+    if w.net.open_sockets():
+        raise Violation(["big-cluster", "socket-left-open"], "sockets left open after close(): %s" % desc)
+    return n >= 59, ["big-cluster", "n>=60" if n >= 60 else "n<60"]
+
+
 # ---- several clients in one process --------------------------------------------------------------------------------
 
 def side_by_side_cases(tier, seed):
@@ -297,6 +369,7 @@ def history_strategy(tier):
 PARTS = [
     Part("reply-segmentations", "enum", check, cases=segmentation_cases, exhaustive=True),
     Part("fixed-histories", "enum", check, cases=fixed_history_cases, shards={"quick": 4, "thorough": 8}),
+    Part("large-clusters", "enum", check_big_cluster, cases=big_cluster_cases, shards={"quick": 8, "thorough": 16}, exhaustive=True),
     Part("clients-side-by-side", "enum", check_side_by_side, cases=side_by_side_cases, shards={"quick": 4, "thorough": 8}, exhaustive=True),
     Part("random-histories", "hyp", check, strategy=history_strategy,
          examples={"quick": 60, "thorough": 4000}, shards={"quick": 4, "thorough": 16}),
